@@ -56,6 +56,22 @@ CHECKS = {
         note="Exactness of the delta for every program (origin spans, duplicate removal, note attachment) is value-level and not decided.",
         design="DESIGN.md §4 C13",
     ),
+    "C08": dict(
+        rules="R08.1-R08.2",
+        what="every SubtypeContext flag, proper_subtype and state.strict_optional is a component of the subtype memo key; every context/global attribute read by the subtype visitor is keyed; lookups and records address the same entry with the same key and operands and the right polarity; hashed fields of every Type class are compared by __eq__",
+        quant="pairs and triples of types",
+        technique="who-may-read rule over subtypes.py against the key tuple; sibling cross-check of lookup/record and of __hash__/__eq__",
+        note="Reflexivity, transitivity, join/meet bounds and union simplification are value-level laws and are not decided. The unkeyed reads of options.extra_checks/strict_concatenate are tabled as informational (no failing input).",
+        design="DESIGN.md §4 C08",
+    ),
+    "C14": dict(
+        rules="R14.1-R14.3",
+        what="both front ends can construct the same set of AST node classes; per node class the semantic attributes set at construction agree (branch-sensitive tracking); Errors.report clamps end positions before building ErrorInfo",
+        quant="source files without type comments and their corruptions",
+        technique="sibling cross-check of the two parser front ends over the resolved constructors; CFG must-pass for the position clamps",
+        note="Equality of diagnostics between the parsers and columns lying inside the line are value-level and not decided.",
+        design="DESIGN.md §4 C14",
+    ),
     "C09": dict(
         rules="R09.0-R09.4",
         what="the options snapshot is computed from every name in OPTIONS_AFFECTING_CACHE; every Options attribute read in the RTA call-graph zone of the cached computation is keyed, keyed separately, not settable, or tabled; print-time options are not read while rendering cached tuples; cache directory derives from python_version",
